@@ -8,6 +8,7 @@ Oracle (implementation only): union / first-wins / skip / absence laws checked d
 byte-compared with the first source, inputs deep-compared before and after.
 """
 import copy
+import hashlib
 import json
 import os
 import random
@@ -140,7 +141,10 @@ def _run_real(case):
     try:
         paths, objs, digests, recdig = [], [], [], []
         for i, d in enumerate(case['datasets']):
-            p = os.path.join(base, f'in{i}')
+            # the inputs are given in an order that is NOT the alphabetical order of their directory names in half of the cases
+            # (first-wins is about the order GIVEN): query before mapping, zeta before alpha
+            unsorted_names = int(hashlib.md5(key_of(case).encode()).hexdigest(), 16) % 2 == 1
+            p = os.path.join(base, ['query', 'mapping', 'zeta', 'alpha', 'mid', 'beta', 'gamma', 'delta'][i] if unsorted_names and i < 8 else f'in{i}')
             kobj, _ = kgen.write_dataset(d, p, f'salt{i}', case['tar'][i])
             paths.append(p)
             objs.append(kobj)
